@@ -95,3 +95,43 @@ pub open spec fn load_value_effect(t: St, ext: bool, fst: Register, snd: Registe
         if share { share_effect(t2, rd(t2, fst), 1) } else { t2 }
     }
 }
+
+// ---- multi-field stores / loads (one block) -----------------------------------------------------------
+
+/// zero the pointer slots of fields 0..k of block `mb`
+pub open spec fn store_zeros_effect(t: St, mb: Register, k: int) -> St
+    decreases k,
+{
+    if k <= 0 { t } else {
+        let t1 = store_zeros_effect(t, mb, k - 1);
+        St { mem: t1.mem.insert(rd(t1, mb) as int + 16 + 16 * (k - 1), 0), ..t1 }
+    }
+}
+
+/// the last `i` bindings of `bs` stored, right to left, into fields ff-1, ff-2, .. of block `mb`; the
+/// variable `bs[j]` lives at environment position `rem + j` (registers 2 * (rem + j) + 4 and + 5)
+pub open spec fn store_values_iter(t: St, bs: Seq<ContextBinding>, rem: int, mb: Register, ff: int, i: int) -> St
+    decreases i,
+{
+    if i <= 0 { t } else {
+        let t1 = store_values_iter(t, bs, rem, mb, ff, i - 1);
+        let j = bs.len() - i;
+        store_value_effect(t1, is_ext(bs[j]), freg(2 * (rem + j) + 4), freg(2 * (rem + j) + 5), mb, ff - i)
+    }
+}
+
+/// effect of `store_values`: all bindings stored into the last fields, the unused first fields marked with null
+pub open spec fn store_values_effect(t: St, bs: Seq<ContextBinding>, rem: int, mb: Register, ff: int) -> St {
+    store_zeros_effect(store_values_iter(t, bs, rem, mb, ff, bs.len() as int), mb, ff - bs.len())
+}
+
+/// the last `i` bindings of `bs` loaded, right to left, from fields ff-1, ff-2, .. of block `mb`
+pub open spec fn load_values_iter(t: St, bs: Seq<ContextBinding>, ex: int, mb: Register, ff: int, share: bool, i: int) -> St
+    decreases i,
+{
+    if i <= 0 { t } else {
+        let t1 = load_values_iter(t, bs, ex, mb, ff, share, i - 1);
+        let j = bs.len() - i;
+        load_value_effect(t1, is_ext(bs[j]), freg(2 * (ex + j) + 4), freg(2 * (ex + j) + 5), mb, ff - i, share)
+    }
+}
